@@ -186,8 +186,16 @@ func LoadReplays(property string) (map[string]json.RawMessage, error) {
 	}
 	var files []string
 	if st.IsDir() {
-		files, _ = filepath.Glob(filepath.Join(p, "*.json"))
-		sort.Strings(files)
+		all, _ := filepath.Glob(filepath.Join(p, "*.json"))
+		sort.Strings(all)
+		for _, f := range all {
+			// expensive saved cases (minutes) are named *.thorough.json and are
+			// replayed by the thorough tier only (and by --replay <file>)
+			if strings.HasSuffix(f, ".thorough.json") && os.Getenv("VERIF_TIER") != "thorough" {
+				continue
+			}
+			files = append(files, f)
+		}
 	} else {
 		files = []string{p}
 	}
